@@ -24,7 +24,7 @@ POSMC = {
             [("edges", 10000), ("transposition_arrivals", 1000), ("variant_groups", 1000)]),
     "C07": ("static predicates on every state; history predicates (occurred before / threefold / 50-move / insufficient material / is_draw) on every prefix of every game of the arenas",
             ["identity of positions = placement+side+rights+ep square as the property states", "null moves are not part of games"],
-            [("prefixes_repeated", 100), ("prefixes_threefold", 10), ("prefixes_rule50", 10), ("prefixes_insufficient", 10), ("cov_in_check", 100)]),
+            [("prefixes_repeated", 100), ("prefixes_threefold", 10), ("prefixes_rule50", 10), ("prefixes_insufficient", 10), ("cov_in_check", 100), ("long_history_prefixes", 1000)]),
     "C15": ("every edge: move_is_capture / move_is_quiet / move_gives_check vs what refchess::make actually does",
             ["refchess oracle"],
             [("cov_ep_moves", 100), ("cov_castle_moves", 100), ("cov_promotion_moves", 100), ("checking_edges", 1000)]),
@@ -71,6 +71,15 @@ def run_posmc(prop, tier):
         for s in spaces:
             argv += ["--space", s]
         jobs.append(dict(argv=argv, timeout=deadline(tier) * 2 + 120))
+    if prop in ("C02", "C03"):
+        # the text-protocol seam: in-process UCI sessions on the -Ofast hooked build
+        import searchchecks
+        sexe = searchchecks.searchmc_exe("rel")
+        lst = "ucipath" if prop == "C02" else "ucikeep"
+        for i in range(16):
+            jobs.append(dict(argv=[sexe, "--prop", prop, "--tier", tier, "--list", lst, "--inproc", "--shard", "%d/16" % i,
+                                   "--seeds", os.path.join(VERIF, "data", "seeds.fen"), "--seed", str(driver.seed()),
+                                   "--deadline", str(deadline(tier))], timeout=deadline(tier) * 2 + 120))
     results = driver.run_jobs(prop, tier, jobs)
     merged = driver.merge(results)
     return driver.finish(prop, tier, "model_checking", merged, t0, rule=rule, assumptions=assumptions,
